@@ -63,6 +63,8 @@ run_directed = directed.run
 
 
 def cases(tier, rng):
+    for c in directed.async_error_function_on_invariant_cases():
+        yield "directed-async-error-function-on-invariant", c
     for c in directed.base_exception_error_classes_cases():
         yield "directed-base-exception-error-classes", c
     for c in directed.error_function_bad_returns_cases():
